@@ -258,6 +258,15 @@ def gen_world(seed, classes=ALL_CLASSES, want_constraints=0.3, node_p=0.25, tag=
             tot = float(sum(lens.values()))
             args["subpath_constraints_coverage_length"] = int(100 * lens[tuple(pair[big])] / tot - 1) / 100.0
             args["length_attr"] = "len"
+    if cons_key not in args and not node_mode and rng.random() < 0.15:
+        # a coverage fraction although there are no constraints: a legal call in which the fraction must mean nothing
+        if dag and rng.random() < 0.3:
+            args["subpath_constraints_coverage_length"] = rng.choice([0.5, 0.3])
+            args["length_attr"] = "len"
+            graph = dict(graph)
+            graph["edge_lengths"] = [[u, v, rng.randint(1, 4)] for u, v, _ in graph["edges"] if rng.random() < 0.8]
+        else:
+            args[cons_key + "_coverage"] = rng.choice([0.5, 0.5, 0.75, 0.3])
     # ignored elements
     if rng.random() < 0.2:
         if node_mode:
@@ -278,12 +287,12 @@ def gen_world(seed, classes=ALL_CLASSES, want_constraints=0.3, node_p=0.25, tag=
         if rng.random() < 0.6:
             args["additional_ends"] = [rng.choice(cand)]
     # error scaling (error models)
-    if base in ("kMinPathError", "kLeastAbsErrors", "kMinPathErrorCycles", "kLeastAbsErrorsCycles") and rng.random() < 0.2:
+    if base in ("kMinPathError", "kLeastAbsErrors", "kMinPathErrorCycles", "kLeastAbsErrorsCycles") and rng.random() < 0.25:
         if node_mode:
-            args["error_scaling"] = [[rng.choice(graph["nodes"]), rng.choice([0, 0.5, 1])]]
+            args["error_scaling"] = [[rng.choice(graph["nodes"]), rng.choice([0, 0, 0.5, 1])]]
         else:
             e = rng.choice(graph["edges"])
-            args["error_scaling"] = [[[e[0], e[1]], rng.choice([0, 0.5, 1])]]
+            args["error_scaling"] = [[[e[0], e[1]], rng.choice([0, 0, 0.5, 1])]]
     if base in ("kFlowDecomp",) and rng.random() < 0.25 and g.get("weights") and not node_mode:
         args["solution_weights_superset"] = list(g["weights"]) + [rng.randint(1, 5)]
         if "k" in args and rng.random() < 0.5:
